@@ -110,6 +110,7 @@ mutant("m18i", "C18", "asmjit/support/arena.cpp", "  size = Support::min<size_t>
 mutant("m09n", "C09", J, "         !Support::bit_vector_get_bit(block->_stop_bit_vector, area_start - 1u)) {\n    area_start--;\n  }", "         !Support::bit_vector_get_bit(block->_stop_bit_vector, area_start - 1u)) {\n    break;\n  }", "revert fix: query() of an interior pointer returns a partial span")
 mutant("m14o", "C14", "asmjit/arm/a64assembler.cpp", "        if (lsb >= op_size || width == 0 || width > op_size - lsb)\n          goto InvalidImmediate;\n\n        uint32_t lsb32 = Support::neg(uint32_t(lsb)) & (op_size - 1);", "        if (lsb >= op_size || width == 0 || width > op_size)\n          goto InvalidImmediate;\n\n        uint32_t lsb32 = Support::neg(uint32_t(lsb)) & (op_size - 1);", "revert fix: bfc accepts lsb + width beyond the register")
 mutant("m14p", "C14", "asmjit/arm/a64assembler.cpp", "        if (shift_type == uint32_t(ShiftOp::kROR) && inst_id != Inst::kIdMvn)\n          goto InvalidImmediate;\n", "", "revert fix: neg/negs accept ror")
+mutant("m14q", "C14", "asmjit/core/assembler.cpp", "    if (ASMJIT_UNLIKELY(delta < -(limit >> 1) || delta >= limit)) {", "    if (ASMJIT_UNLIKELY(delta < -(limit >> 1) - limit || delta >= 2 * limit)) {", "embed_label_delta accepts distances up to twice the field range (truncated)")
 
 def run(cmd, env=None, timeout=3600):
     e = dict(os.environ); e.update(env or {})
